@@ -16,8 +16,9 @@ def cases(path):
         elif cur is not None:
             m = re.search(r"-> (OK|VIOLATION)$", line)
             if line.startswith("C05 quick:") and m:
-                cur["verdict"] = m.group(1)
-                cur["summary"] = line
+                if cur["verdict"] is None:          # (a later line is the run that restores the generated files)
+                    cur["verdict"] = m.group(1)
+                    cur["summary"] = line
             else:
                 cur["details"].append(line.strip())
     if cur:
